@@ -81,8 +81,8 @@ def shape_cases(ctx, sc):
     return out
 
 
-def law_sweep(ctx, sc):
-    out = []
+def law_sweep(ctx, sc, out=None):
+    out = [] if out is None else out
     rng = np.random.default_rng(ctx.seed)
 
     def bad(sig, what, case):
@@ -541,10 +541,20 @@ def run(ctx):
                 ctx.fail("failing-input", what, case=c, signature="shape-contract")
         ctx.cov["shape_cases"] = {"accepted": acc, "rejected": rej}
         ctx.cov["distinct_nontrivial"] += len({(tuple(c["st"]), tuple(c["sy"]), c["m"]) for c in sh})
-    fails, n = law_sweep(ctx, sc)
+    kept = []
+    try:
+        fails, n = law_sweep(ctx, sc, kept)
+    except Exception as e:  # noqa -- an exception of the implementation on an input of the sweep is a failing input, and the
+        # failures collected before it are kept
+        fails, n = kept + [("law-sweep-raises", f"the implementation raised {type(e).__name__}: {str(e)[:200]} on an input of the law sweep "
+                            f"(after {len(kept)} recorded failures)", {"law": "sweep", "error": f"{type(e).__name__}: {str(e)[:200]}"})], 0
     ctx.cov["evaluations"] += n
     ctx.cov["law_evaluations"] = n
-    fails2, n2, stats = ext_laws(ctx, sc)
+    try:
+        fails2, n2, stats = ext_laws(ctx, sc)
+    except Exception as e:  # noqa
+        fails2, n2, stats = [("law-sweep-raises", f"the implementation raised {type(e).__name__}: {str(e)[:200]} on an input of the extended "
+                              f"laws", {"law": "ext", "error": f"{type(e).__name__}: {str(e)[:200]}"})], 0, {}
     ctx.cov["evaluations"] += n2
     ctx.cov["law_evaluations"] = n + n2
     ctx.cov.update(stats)
